@@ -61,6 +61,15 @@ def r1_package_is_path(repo):
                 all(c.lineno > sp[0].lineno for c in tcalls) and not flat_guards(sp[0])
             obs.append(Ob("C02-R1", "%s:package-switched-before-translating" % name, _w(f), ok,
                           "translator.package must be set to 'src.' + package_name before the incorrect program is translated"))
+    # producing one program never deletes or moves anything in the batch directory shared with the other programs
+    for name in ("gen_program", "gen_program_mul", "process_cp_transformations", "process_ncp_transformations", "save_program"):
+        f = repo.fn(H + "." + name)
+        bad = [src(c)[:70] for c in calls_in(f.node)
+               if call_name(c) in ("rmtree", "remove", "unlink", "rmdir", "move", "rename", "removedirs", "replace")
+               and (src(c.func).startswith(("shutil.", "os.")))]
+        obs.append(Ob("C02-R1", "%s:does-not-delete-or-move-batch-files" % name, _w(f), not bad,
+                      "`dirname` is the src directory shared by every program of the batch: generating / saving one program "
+                      "(also on its error path) must not remove or move files there; found %s" % bad))
     # the translators print `package <self.package>`
     for lang, q in (("java", "src.translators.java.JavaTranslator"), ("kotlin", "src.translators.kotlin.KotlinTranslator"),
                     ("groovy", "src.translators.groovy.GroovyTranslator"), ("scala", "src.translators.scala.ScalaTranslator")):
@@ -196,7 +205,7 @@ def r2_distinct_packages(repo):
 
 def rules():
     return [
-        RuleSpec("C02-R1", "package printed = directory written (per program, per variant)", 10, r1_package_is_path),
+        RuleSpec("C02-R1", "package printed = directory written (per program, per variant)", 15, r1_package_is_path),
         RuleSpec("C02-R2", "distinct package names within a batch (word-pool typestate)", 6, r2_distinct_packages),
     ]
 
@@ -248,6 +257,12 @@ def _v_kotlin_no_package(tree):
     iff.test = V.parse_expr("False")
 
 
+def _v_cleanup_on_error(tree):
+    f = V.find_def(tree, "gen_program")
+    tr = V.one([n for n in f.body if isinstance(n, ast.Try)])
+    tr.handlers[0].body.insert(0, V.parse_stmts("shutil.rmtree(dirname, ignore_errors=True)")[0])
+
+
 def _t_rename(tree):
     f = V.find_def(tree, "_run")
     V.rename_local(f, "batch_packages", "names")
@@ -263,6 +278,7 @@ def variants():
         V.Variant("package names drawn inside the program loop again (the repaired defect)", h, _v_revert_fix, {"C02-R2"}),
         V.Variant("pool reset before every program", h, _v_reset_in_loop, {"C02-R2"}),
         V.Variant("word() keeps the word in the pool", "src/utils.py", _v_word_keeps, {"C02-R2"}),
+        V.Variant("tool error removes the whole batch directory", h, _v_cleanup_on_error, {"C02-R1"}),
         V.Variant("twin: rename batch_packages", h, _t_rename, None, twin=True),
         V.Variant("twin: whole tree reformatted by ast.unparse", None, None, None, twin=True),
     ]
